@@ -418,6 +418,9 @@ func registerVerifrt() {
 		ext(pkg+"_manhattan_distance", kernel(1))
 		ext(pkg+"_cosine_similarity_dot_norm", kernel(2))
 	}
+	// RandBudget(k): only the first k math/rand draws of a path are path decisions; the rest are
+	// fixed (large member lists: the draws that matter are few, the permutation is long)
+	ext(p+"RandBudget", func(fr *frame, a []value) value { randBudget = int(asInt64(a[0])); randDet = 0; return nil })
 	// processes: goroutines started while the current goroutine carries tag n inherit it;
 	// KillProcess(n) stops all of them for good (a crashed process)
 	ext(p+"SetProcess", func(fr *frame, a []value) value { S.cur.proc = int(asInt64(a[0])); return nil })
@@ -428,6 +431,8 @@ func registerVerifrt() {
 
 // quiesceOthers lets every other goroutine run until all are finished or
 // blocked; returns the number of goroutines still blocked.
+var randBudget, randDet = -1, 0
+
 func quiesceOthers() int {
 	self := S.cur
 	for {
@@ -907,7 +912,15 @@ func registerMisc() {
 			s := nextReplay("rand.Intn")
 			cc, _ := strconv.Atoi(s)
 			c = cc % int(n)
+		} else if randBudget == 0 {
+			// verifrt.RandBudget exhausted: the remaining draws of this path are a fixed
+			// sequence that runs through all values (rejection sampling still terminates)
+			randDet++
+			c = randDet % int(n)
 		} else {
+			if randBudget > 0 {
+				randBudget--
+			}
 			c = P.decide(int(n), "rand.Intn")
 		}
 		P.inputs = append(P.inputs, InputRec{Fn: "rand.Intn", Name: fmt.Sprint(n), Kind: "enum", Conc: fmt.Sprint(c)})
@@ -924,7 +937,12 @@ func registerMisc() {
 				s := nextReplay("rand.Shuffle")
 				jj, _ := strconv.Atoi(s)
 				j = jj % (i + 1)
+			} else if randBudget == 0 {
+				j = i // verifrt.RandBudget exhausted: the rest of the permutation is the identity
 			} else {
+				if randBudget > 0 {
+					randBudget--
+				}
 				j = P.decide(i+1, "rand.Shuffle")
 			}
 			P.inputs = append(P.inputs, InputRec{Fn: "rand.Shuffle", Name: fmt.Sprint(i), Kind: "enum", Conc: fmt.Sprint(j)})
